@@ -198,10 +198,18 @@ async def _scenario(case, loop):
         sources = {}
         calls = {}
 
+        sink_gen = {}
+
         def mk_sink(sid, spec):
             lat = {int(k): v for k, v in spec.get("lat", {}).items()}
+            gen = sink_gen[sid] = sink_gen.get(sid, 0) + 1
 
-            async def sink(sample):
+            async def sink(sample, sid=sid):
+                if sink_gen[sid] != gen:
+                    sid = -(sid + 1)      # a sink of a registration that was removed is still being driven
+                    log.append(["sink", sid, to_us(sample.timestamp), vcode(sample.value), None, None, env.clk()])
+                    log.append(["exit", sid, env.clk(), "ok"])
+                    return
                 k = calls.get(sid, 0)
                 calls[sid] = k + 1
                 src = sources[sid]
@@ -252,8 +260,14 @@ async def _scenario(case, loop):
                     bad = [names[id(s)] for s in err.exceptions]
                     log.append(["raised", bad, env.clk()])
                     for s in err.exceptions:
-                        log.append(["remove", names[id(s)], env.clk()])
+                        sid = names[id(s)]
+                        log.append(["remove", sid, env.clk()])
                         rs.remove_timeseries(s)
+                        if case["series"][sid].get("readd") and not any(e[0] == "srcstop" and e[1] == sid for e in log):
+                            # the documented recovery: "remove (and re-add if desired) the faulty timeseries before
+                            # calling this method again" -- same source object, a new (healthy) sink
+                            log.append(["add", sid, env.clk()])
+                            assert rs.add_timeseries(f"s{sid}", s, mk_sink(sid, {}))
                 except asyncio.CancelledError:
                     raise
                 except Exception as exc:  # "unexpected error, restarting..."
@@ -397,7 +411,9 @@ def ambiguous(case, log):
             marks.add(e[-1])
         elif e[0] == "hog":
             marks.add(e[2])
-    drv = [e[2] for e in log if e[0] == "add"]
+    # (the supervisor's own remove / re-add right after a ResamplingError happen between two resample() calls)
+    drv = [e[2] for i, e in enumerate(log) if e[0] == "add"
+           and not (i > 0 and log[i - 1][0] == "remove" and log[i - 1][1] == e[1] and log[i - 1][2] == e[2])]
     for i, e in enumerate(log):
         if e[0] == "remove" and not (i > 0 and log[i - 1][0] in ("raised", "remove") and log[i - 1][-1] == e[2]):
             drv.append(e[2])
@@ -546,12 +562,32 @@ def series_history(case, log, sid):
     return out
 
 
-def c08_term(case, obs):
+def actor_series_history(case, log, sid):
+    """series_history() for the actor path: the sample handed to the output channel is read by a consumer task a few
+    loop iterations after the function was called, so a tick is linked to its call by the call index the recording
+    function returned (the emitted value), not by adjacency in the log."""
+    calls = {e[1]: e for e in log if e[0] == "fn"}
+    out = []
+    for e in log:
+        if e[0] == "recv" and e[1] == sid:
+            out.append(("recv", [e[2], e[4], e[3]]))
+        elif e[0] == "sink" and e[1] == sid:
+            call = calls.get(e[3]) if isinstance(e[3], int) else None
+            passed = call[2] if call else []
+            linked = (e[3] is None) or call is not None
+            out.append(("tick", e[2], passed, e[3], e[4], e[5], linked))
+    while out and out[-1][0] != "tick":
+        out.pop()
+    return out
+
+
+def c08_term(case, obs, history=None):
+    history = history or series_history
     parts = []
     b = case["start"]
     item = lambda x: f"(mkI {cZ(x[0] - b)} {cZ(x[1])} {cZ(x[2])})"
-    for sid in range(len(case["series"])):
-        h = series_history(case, obs["log"], sid)
+    for sid in range(len(case.get("series") or case["metrics"])):
+        h = history(case, obs["log"], sid)
         if not h:
             continue
         evs = []
@@ -669,6 +705,7 @@ def gen_c07_case(rng, tier):
             r = rng.random()
             if r < 0.3:
                 s["fail_at"] = rng.randrange(0, 5)
+                s["readd"] = rng.random() < 0.5
             elif r < 0.45:
                 s["remove_at"] = s["add_at"] + rng.randrange(p, 5 * p) // 1000 * 1000 + (0 if s["add_at"] else r_add)
             elif r < 0.55:
@@ -724,7 +761,7 @@ def c07_boundary_cases():
                             "warn_len": 128, "max_len": 1024, "one_shot": False, "duration": 9 * p + 500_000,
                             "series": [{"add_at": 0, "samples": [], "lat": {"1": p, "3": 3 * p}},
                                        {"add_at": 2 * p + 389 if ph != 389 else 2 * p + 641, "samples": [], "fail_at": 2},
-                                       {"add_at": 0, "samples": [], "fail_at": 1}],
+                                       {"add_at": 0, "samples": [], "fail_at": 1, "readd": True}],
                             "hogs": [[ph + 6 * p - 1000, 1000 + p]],
                             "tag": {"align": align_kind, "phase": str(phase)}})
     # align_to given in a DST-observing zone: runs that cross a transition, creation in the other regime
@@ -1050,18 +1087,77 @@ async def _actor_scenario(case, loop):
         ds_recv = ds_chan.new_receiver(limit=1000)  # keeps the data-sourcing request channel consumed
         assert ds_recv is not None
         req_chan = Broadcast[ComponentMetricRequest](name="req")
+        ncalls = [0]
+
+        def rec_fn(samples, config, props):
+            k = ncalls[0]
+            ncalls[0] += 1
+            log.append(["fn", k, [_sample_rec(x) for x in samples], td_us(props.sampling_period),
+                        props.received_samples,
+                        None if props.sampling_start is None else to_us(props.sampling_start)])
+            return float(k)
+
+        kw = {}
+        if case.get("record_fn"):
+            age = case["age"][0] / case["age"][1]
+            kw = {"max_data_age_in_periods": age, "resampling_function": rec_fn, "initial_buffer_len": case["init_len"],
+                  "warn_buffer_len": case["warn_len"], "max_buffer_len": case["max_len"]}
         cfg = ResamplerConfig(resampling_period=timedelta(microseconds=case["period"]),
-                              align_to=None if case["align"] is None else dt(case["align"], case.get("align_tz")))
-        actor = ComponentMetricsResamplingActor(channel_registry=registry, data_sourcing_request_sender=ds_chan.new_sender(),
-                                                resampling_request_receiver=req_chan.new_receiver(limit=1000), config=cfg)
+                              align_to=None if case["align"] is None else dt(case["align"], case.get("align_tz")), **kw)
+
+        class ProbedActor(ComponentMetricsResamplingActor):
+            """The real actor; `_run` is only bracketed (log when it is entered / left) and can be made to raise an
+            Exception on demand after the real `_run` has been cancelled and has run its `finally` -- the way an
+            unhandled error leaves it -- so that the Actor base class re-enters it after RESTART_DELAY."""
+            fault = None
+
+            async def _run(self):
+                log.append(["up", env.clk()])
+                self.fault = asyncio.Event()
+                run = asyncio.ensure_future(ComponentMetricsResamplingActor._run(self))
+                flt = asyncio.ensure_future(self.fault.wait())
+                try:
+                    done, _ = await asyncio.wait([run, flt], return_when=asyncio.FIRST_COMPLETED)
+                except asyncio.CancelledError:
+                    run.cancel()
+                    flt.cancel()
+                    await asyncio.gather(run, flt, return_exceptions=True)
+                    log.append(["down", env.clk()])
+                    raise
+                flt.cancel()
+                if run in done:
+                    log.append(["down", env.clk()])
+                    return run.result()
+                run.cancel()
+                await asyncio.gather(run, return_exceptions=True)
+                log.append(["down", env.clk()])
+                raise RuntimeError("injected fault")
+
+        actor = ProbedActor(channel_registry=registry, data_sourcing_request_sender=ds_chan.new_sender(),
+                            resampling_request_receiver=req_chan.new_receiver(limit=1000), config=cfg)
         actor.start()
         req_sender = req_chan.new_sender()
         tasks = []
         src_chans = {}
+        senders = {}
+
+        def helper_of(sid):
+            rs = getattr(actor, "_resampler", None)          # read-only peek (capacity / period for the C08 oracle)
+            if rs is None:
+                return None
+            for sh in rs._resamplers.values():
+                if f"component_id={sid}," in sh._helper._name:
+                    return sh._helper
+            return None
 
         async def consume(sid, recv):
-            async for s in recv:
-                log.append(["out", sid, to_us(s.timestamp), env.clk()])
+            async for smp in recv:
+                log.append(["out", sid, to_us(smp.timestamp), env.clk()])
+                if case.get("record_fn"):
+                    h = helper_of(sid)
+                    log.append(["sink", sid, to_us(smp.timestamp), vcode(smp.value),
+                                None if h is None else td_us(h.source_properties.sampling_period),
+                                None if h is None else h._buffer.maxlen, env.clk()])
 
         actions = []
         for sid, m in enumerate(case["metrics"]):
@@ -1069,10 +1165,15 @@ async def _actor_scenario(case, loop):
             if m.get("close_at") is not None:
                 actions.append((m["close_at"], 1, "close", sid))
             for k in range(m.get("nsamples", 0)):
-                actions.append((m["req_at"] + 1000 + k * m["ip"], 3, "send", sid))
+                actions.append((m["req_at"] + 1000 + k * m["ip"], 3, "send", (sid, None)))
+            for j, x in enumerate(m.get("samples", [])):       # scripted [at, ts, kind, id]; equal `at` = back to back
+                actions.append((x[0], 3, "send", (sid, x)))
         for at, dur in case.get("hogs", []):
             actions.append((at, 2, "hog", dur))
-        actions.sort()
+        for r in case.get("restarts", []):
+            actions.append((r["at"], 4, r["how"], r.get("gap", 0)))
+        actions.sort(key=lambda x: (x[0], x[1]))
+        hung = False
         for at, _, kind, arg in actions:
             await env.sleep_until(at)
             if kind == "req":
@@ -1081,6 +1182,7 @@ async def _actor_scenario(case, loop):
                 tasks.append(asyncio.create_task(consume(arg, out)))
                 src_name = dataclasses.replace(req, namespace=req.namespace + ":Source").get_channel_name()
                 src_chans[arg] = registry.get_or_create(Sample[Quantity], src_name)
+                senders[arg] = src_chans[arg].new_sender()
                 for _ in range(case["metrics"][arg].get("yields", 0)):   # same instant, a few loop iterations later
                     await asyncio.sleep(0)
                 log.append(["req", arg, env.clk()])
@@ -1089,14 +1191,42 @@ async def _actor_scenario(case, loop):
                 log.append(["close", arg, env.clk()])
                 await src_chans[arg].close()
             elif kind == "send":
-                if arg in src_chans and not src_chans[arg].is_closed:
-                    await src_chans[arg].new_sender().send(Sample(dt(start + env.clk()), Quantity(1.0)))
+                sid, x = arg
+                if sid in src_chans and not src_chans[sid].is_closed:
+                    if x is None:
+                        await senders[sid].send(Sample(dt(start + env.clk()), Quantity(1.0)))
+                    else:
+                        _, ts, k, ident = x
+                        q = (Quantity(float(ident)) if k == 0 else None if k == 1 else
+                             Quantity({2: float("nan"), 3: float("inf"), 4: float("-inf"), 5: 1e308}[k]))
+                        log.append(["recv", sid, ts, k, ident if k < 3 else -k])
+                        await senders[sid].send(Sample(dt(ts, case.get("sample_tz")), q))
+            elif kind == "stop":
+                # actor.stop(); (gap) actor.start(): one Resampler lives across it
+                log.append(["stop", env.clk()])
+                try:
+                    await asyncio.wait_for(actor.stop(), timeout=30 * case["period"] / 1e6)
+                except asyncio.TimeoutError:
+                    # frequenz.channels' Timer swallowed the cancellation (see _shutdown): stop() never returns
+                    log.append(["stop_hung", env.clk()])
+                    hung = True
+                    break
+                except BaseException:   # stop() re-raises what the tasks raised
+                    pass
+                await env.sleep_until(env.clk() + arg)
+                log.append(["start", env.clk()])
+                actor.start()
+            elif kind == "fault":
+                log.append(["fault", env.clk()])
+                if actor.fault is not None:
+                    actor.fault.set()
             else:
                 a = env.clk()
                 clock._ticks += arg
                 sync_wall()
                 log.append(["hog", a, env.clk()])
-        await env.sleep_until(case["duration"])
+        if not hung:
+            await env.sleep_until(case["duration"])
         log.append(["end", env.clk()])
         actor.cancel()
         await _shutdown()
@@ -1150,8 +1280,26 @@ def gen_actor_case(rng, tier):
                     [rng.randrange(0, nticks * p) // 1000 * 1000 + res[1], rng.choice([p // 3, p, 5 * p // 2])])
     hogs.sort()
     hogs = [h for i, h in enumerate(hogs) if h[0] > 0 and (i == 0 or h[0] > hogs[i - 1][0] + hogs[i - 1][1])]
-    return {"period": p, "align": align, "start": start, "loop_t0": loop_t0, "duration": nticks * p + 500_000,
-            "metrics": metrics, "hogs": hogs, "align_tz": align_tz, "tag": {"align": kind}}
+    restarts = []
+    duration = nticks * p + 500_000
+    if rng.random() < 0.45:
+        # the actor is stopped and started again / its _run dies with an exception and the Actor base re-enters it
+        # (after RESTART_DELAY = 2 s) while metrics are subscribed: one timeline must span the restart
+        how = rng.choice(["stop", "stop", "fault"])
+        at = rng.randrange(2 * p, max(2 * p + 1, (nticks - 2) * p)) // 1000 * 1000 + res[3 % len(res)]
+        gap = rng.choice([0, p // 2, p, 2 * p + 1000, 5 * p]) // 1000 * 1000
+        restarts.append({"at": at, "how": how, "gap": gap})
+        down = gap if how == "stop" else 2_000_000
+        duration = max(duration, at + down + 4 * p + 500_000)
+        hogs = [h for h in hogs if h[0] + h[1] < at - p or h[0] > at + down + p]
+        for m in metrics:
+            if at - 3 <= m["req_at"] <= at + down + 3:
+                m["req_at"] = at + down + p // 2 // 1000 * 1000 + res[0]
+                m.pop("yields", None)
+            if m.get("close_at") is not None and at - 3 <= m["close_at"] <= at + down + 3:
+                m.pop("close_at")
+    return {"period": p, "align": align, "start": start, "loop_t0": loop_t0, "duration": duration,
+            "metrics": metrics, "hogs": hogs, "restarts": restarts, "align_tz": align_tz, "tag": {"align": kind}}
 
 
 # ----------------------------------------------------------------------------- MovingWindow(resampler_config=...) (C07)
@@ -1288,3 +1436,42 @@ def mw_boundary_cases():
                         "samples": [[1000 + j * (p // 2), start + j * (p // 2), [0, 0, 3, 4, 0, 2][j % 6], j] for j in range(14)],
                         "hogs": [], "fn": "average", "series": [{"add_at": 0}], "tag": {"align": align_kind}})
     return out
+
+
+def gen_actor_burst_case(rng, tier):
+    """C08 on the production path: ComponentMetricsResamplingActor with a recording resampling function and a small
+    initial_buffer_len.  A fast source makes the buffer grow once the input period is learned; later more than
+    initial_buffer_len (at most 50, the channel's default queue) samples are sent back to back, without yielding to
+    the loop: every one of them must be in the window the function is handed at the next tick."""
+    p = rng.choice([1_000_000, 1_000_000, 3_000_000, 200_000, 7_000_000])
+    age = rng.choice([[1, 1], [3, 1], [2, 1]])
+    init_len = rng.choice([1, 2, 3, 4, 6])
+    start = (BASE // p + rng.randrange(1000)) * p + rng.choice([0, p // 2, p // 3])
+    ph = tick_phase(p, 0, start)
+    nticks = rng.randint(8, 12)
+    k = rng.choice([4, 5, 8, 10, 16])                 # input samples per period while learning
+    ip = p // k
+    samples = []
+    j = 0
+    t = 1000
+    learn_until = (ph if ph else p) + 3 * p
+    while t < learn_until:
+        samples.append([t + 77, start + t, 0, j])
+        j += 1
+        t += ip
+    cap = min(1024, max(1, math.ceil(k * age[0] / age[1])))
+    # bursts: n samples at one instant, stamped 1 us apart just before the send, between two ticks
+    for b in range(rng.randint(1, 3)):
+        tick = (ph if ph else p) + (4 + 2 * b) * p
+        if tick + p > nticks * p:
+            break
+        at = tick + rng.choice([p // 4, p // 2, p - 2000]) // 1000 * 1000 + 77
+        n = rng.randint(init_len + 1, 50)
+        for q in range(n):
+            samples.append([at, start + at - n + q, 0 if rng.random() < 0.95 else rng.choice([1, 2]), j])
+            j += 1
+    samples.sort(key=lambda x: (x[0], x[1]))
+    return {"period": p, "align": 0, "start": start, "loop_t0": 0, "duration": nticks * p + 500_000,
+            "age": age, "init_len": init_len, "warn_len": 128, "max_len": 1024, "record_fn": True, "one_shot": False,
+            "metrics": [{"req_at": 0, "samples": samples}], "hogs": [], "restarts": [], "align_tz": None,
+            "tag": {"family": "actor_burst", "learned_capacity": cap}}
